@@ -67,7 +67,7 @@ fn build_token(t: &str) -> Option<String> {
       vp.insert("id".into(), json!(format!("https://e.x/c/{}", n)));
     }
     if let Some(n) = g("vholder")? {
-      vp.insert("holder".into(), json!(format!("did:ex:i{}", n)));
+      vp.insert("holder".into(), json!(holder_did(n)));
     }
     let mut cl = Map::new();
     if let Some(e) = g("exp")? {
@@ -76,7 +76,7 @@ fn build_token(t: &str) -> Option<String> {
     let iss = c.get("iss")?;
     cl.insert(
       "iss".into(),
-      if let Some(w) = iss.strip_prefix('w') { json!(format!("https://e.x/holder/{}", w)) } else { json!(format!("did:ex:i{}", iss.parse::<i64>().ok()?)) },
+      if let Some(w) = iss.strip_prefix('w') { json!(format!("https://e.x/holder/{}", w)) } else { json!(holder_did(iss.parse::<i64>().ok()?)) },
     );
     if let Some(e) = g("iat")? {
       cl.insert("iat".into(), json!(e));
@@ -119,6 +119,23 @@ fn build_opts(t: &str) -> Option<JwtPresentationValidationOptions> {
   )
 }
 
+/// DID numbers 60.. are the DIDs 0.. spelt with an upper-case letter in the method-specific id (`did:ex:I2` for `did:ex:i2`):
+/// valid, DIFFERENT DIDs
+fn holder_did(n: i64) -> String {
+  if n >= 60 {
+    format!("did:ex:I{}", n - 60)
+  } else {
+    format!("did:ex:i{}", n)
+  }
+}
+fn holder_num(s: &str) -> String {
+  if let Some(r) = s.strip_prefix("did:ex:I") {
+    r.parse::<i64>().map(|n| (n + 60).to_string()).unwrap_or("?".into())
+  } else {
+    s.strip_prefix("did:ex:i").unwrap_or("?").to_string()
+  }
+}
+
 pub fn run(args: &[&str]) -> String {
   KIND.with(|k| k.set('J'));
   let r = run_inner(args);
@@ -151,7 +168,7 @@ fn run_inner(args: &[&str]) -> String {
       format!(
         "ok:id={};holder={}|exp={};nbf={};aud={};cust={}",
         url(pj.get("id"), "https://e.x/c/"),
-        url(pj.get("holder"), "did:ex:i"),
+        pj.get("holder").and_then(|s| s.as_str()).map(holder_num).unwrap_or("~".into()),
         d.expiration_date.map(|t| t.to_unix().to_string()).unwrap_or("~".into()),
         d.issuance_date.map(|t| t.to_unix().to_string()).unwrap_or("~".into()),
         d.aud.as_ref().map(|u| u.as_str().trim_start_matches("https://e.x/a/").to_string()).unwrap_or("~".into()),
@@ -304,6 +321,15 @@ pub fn gen(thorough: bool, seed: u64, out: &mut impl Write) {
           }
         }
       }
+    }
+  }
+  // (b') an issuer / vp.holder that is the holder document's DID in another letter case (a different DID)
+  for (iss, vh) in [("62", "~"), ("62", "62"), ("2", "62"), ("62", "2")] {
+    for kid in ["F2.0.1", "H1"] {
+      let mut s = Sc::base();
+      s.kid = kid.into();
+      s.cl = s.cl.replace("iss=2", &format!("iss={}", iss)).replace("vholder=~", &format!("vholder={}", vh));
+      writeln!(out, "{}", s.line()).unwrap();
     }
   }
   // (c) nonce on either side
